@@ -55,6 +55,12 @@ func drawCfg(t *core.Tape, opt core.Options) RunCfg {
 	c.TimeoutMs = []int{200, 100, 500, 1000}[t.Weighted(4, 2, 2, 1)]
 	c.EmptyIntv = []int{0, 300, 1500}[t.Weighted(4, 2, 1)]
 	c.SkipCommit = t.Chance(1, 4)
+	if c.NVal == 1 {
+		// a lone validator with skip_timeout_commit and no empty-block interval commits
+		// in zero simulated time forever (legitimate product behaviour, but the fake
+		// clock then never advances and the simulator never regains control)
+		c.SkipCommit = false
+	}
 	c.WAL = t.Chance(1, 3)
 	c.Galaxias = t.Chance(1, 4)
 	kinds := []string{"default", "archive", "snap", "archive-snap", "tiny-cache", "preimages"}
@@ -89,12 +95,28 @@ func (engine) Run(t *testing.T, tape *core.Tape, opt core.Options) (res *core.Ru
 		until: map[string]time.Duration{}, retries: map[string]int{}, cut: map[[2]int]bool{}}
 	s.cfg = drawCfg(tape, opt)
 	s.maxSteps = opt.Int("maxsteps", 60000)
+	s.wallStart = wallNow()
+	s.maxWall = time.Duration(opt.Int("maxwall", 60)) * time.Second
 	s.mkScratch()
 	defer os.RemoveAll(s.scratch)
 	defer func() {
 		res.TraceHash = s.h.Sum()
 		res.AbstractHash = s.ah.Sum()
 		res.Sample = map[string]interface{}{"config": s.cfg, "first_events": head(res.TraceTail, 40)}
+	}()
+	// hard watchdog from outside the bubble (real clock): a run in which simulated
+	// time cannot advance (a node spinning at one instant) never returns control
+	// to the simulator; give up on the whole worker with a diagnostic (infrastructure,
+	// exit 2 in the driver) instead of hanging until the global timeout.
+	done := make(chan struct{})
+	defer close(done)
+	go func() {
+		select {
+		case <-done:
+		case <-time.After(4 * s.maxWall):
+			fmt.Fprintf(os.Stderr, "WATCHDOG: run %d of engine netsim did not return within %v of wall time (simulated time not advancing?) config=%+v\n", opt.RunIndex, 4*s.maxWall, s.cfg)
+			os.Exit(3)
+		}
 	}()
 	func() {
 		defer func() {
